@@ -87,7 +87,14 @@ enum { T_NONE = 0, T_PING = 1, T_ATT = 2, T_LONG3 = 3, T_PING_SAME_EVENT = 4, T_
 static const char* const traffic_name[] = { "none", "ping", "att-read", "3-write-commands-27-bytes", "ping-same-event", "att-read-same-event" };
 
 constexpr unsigned old_interval = 0x18, old_timeout = 0x48, hop = 10;
-constexpr unsigned new_win_size = 2, new_win_offset = 3, new_interval = 40, new_latency = 2, new_timeout = 200;
+constexpr unsigned new_win_size = 2, new_latency = 2, new_timeout = 200;
+// interval / transmitWindowOffset carried by the LL_CONNECTION_UPDATE_IND: chosen per case ( Case::uset ), constant within a case
+static unsigned new_interval = 40, new_win_offset = 3;
+static const unsigned update_sets[][ 2 ] = {
+    { 40, 3 },                              // 0: default
+    { 80, old_interval + 1 }, { 80, 80 },   // 1, 2: larger interval, offset in ( old interval, new interval ]
+    { 8, 0 }, { 8, 8 } };                   // 3, 4: smaller interval, offset 0 / new interval
+constexpr int n_update_sets = 5;
 static const std::uint8_t old_map[ 5 ] = { 0xff, 0xff, 0xff, 0xff, 0x1f };
 static const std::uint8_t new_map[ 5 ] = { 0x00, 0x00, 0x00, 0x00, 0x18 };  // channels 35 and 36 only
 constexpr std::uint8_t new_phy = 0x02;                                     // LE 2M both directions
@@ -122,6 +129,7 @@ struct Case
     int proc, lat, k, shift, delta, traffic, nev;   // shift: LL_PING_REQ exchanges before the k empty events (moves the position in the receive ring)
     unsigned pattern;   // bit j set: event j after the procedure PDU ( end != 0: of the second connection ) is received, else missed
     int end = 0;        // 0: one connection; else the connection ends before the instant and a second one follows, see end_name
+    int uset = 0;       // index into update_sets ( connection update only )
 };
 
 enum { E_NONE = 0, E_TERMINATE = 1, E_TIMEOUT = 2, E_DISCONNECT = 3 };
@@ -133,8 +141,8 @@ static const std::uint8_t second_map[ 5 ] = { 0xff, 0xff, 0x0f, 0x00, 0x00 };   
 
 static std::string case_line( const Case& c )
 {
-    return mc::fmt( "case proc=%d lat=%d k=%d shift=%d delta=%d traffic=%d nev=%d pattern=%u end=%d  (%s, latency %d, %d+%d events before, instant=counter%+d, traffic %s%s%s)",
-        c.proc, c.lat, c.k, c.shift, c.delta, c.traffic, c.nev, c.pattern, c.end, proc_name[ c.proc ], c.lat, c.shift, c.k, c.delta, traffic_name[ c.traffic ],
+    return mc::fmt( "case proc=%d lat=%d k=%d shift=%d delta=%d traffic=%d nev=%d pattern=%u end=%d uset=%d  (%s, latency %d, %d+%d events before, instant=counter%+d, traffic %s%s%s)",
+        c.proc, c.lat, c.k, c.shift, c.delta, c.traffic, c.nev, c.pattern, c.end, c.uset, proc_name[ c.proc ], c.lat, c.shift, c.k, c.delta, traffic_name[ c.traffic ],
         c.end ? "; connection ends before the instant by " : "", c.end ? end_name[ c.end ] : "" );
 }
 
@@ -211,7 +219,7 @@ void push_procedure( int proc, std::uint16_t instant )
 {
     const std::uint8_t il = std::uint8_t( instant ), ih = std::uint8_t( instant >> 8 );
     if ( proc == P_CONN_UPDATE )
-        push_pdu( 0x03, { 0x00, new_win_size, new_win_offset, 0, new_interval, 0, new_latency, 0, new_timeout, 0, il, ih } );
+        push_pdu( 0x03, { 0x00, new_win_size, std::uint8_t( new_win_offset ), 0, std::uint8_t( new_interval ), 0, new_latency, 0, new_timeout, 0, il, ih } );
     else if ( proc == P_CHANNEL_MAP )
         push_pdu( 0x03, { 0x01, new_map[ 0 ], new_map[ 1 ], new_map[ 2 ], new_map[ 3 ], new_map[ 4 ], il, ih } );
     else
@@ -466,6 +474,12 @@ bool step( bool received, Outcome& o, unsigned max_pdus = 1 )
         g_ref.phase = 3; o.closed = true;
         return false;
     }
+    else if ( closed && g_ref.phase == 1 )
+    {
+        g_ref.phase = 3; o.closed = true;
+        return fail( o, sigof( "link-closed-while-procedure-pending" ), mc::fmt( "procedure accepted in event %u with instant %u ( valid parameters ); in event %u the link is closed with reason 0x%02x instead of the procedure being applied",
+            unsigned( g_ref.c_rx ), unsigned( std::uint16_t( g_ref.c_rx + g_ref.delta ) ), p, g_obs.reason ) );
+    }
     else if ( closed )
     {
         g_ref.phase = 3; o.closed = true;
@@ -571,6 +585,7 @@ bool connect( int lat, Outcome& o )
 // prefix: connection + ( LL_PHY_REQ exchange ) + shift LL_PING_REQ exchanges + k received empty events
 bool prefix( const Case& c, Outcome& o )
 {
+    new_interval = update_sets[ c.uset ][ 0 ]; new_win_offset = update_sets[ c.uset ][ 1 ];
     if ( !connect( c.lat, o ) ) return false;
     g_ref.proc = std::uint8_t( c.proc ); g_ref.delta = 6; g_ref.lat = std::uint8_t( c.lat );
     if ( c.proc == P_PHY )
@@ -735,8 +750,8 @@ void run_case_from_scratch( const Case& c, Outcome& o )
 
 bool parse_case( const std::string& s, Case& c )
 {
-    return std::sscanf( s.c_str(), "case proc=%d lat=%d k=%d shift=%d delta=%d traffic=%d nev=%d pattern=%u end=%d", &c.proc, &c.lat, &c.k, &c.shift, &c.delta, &c.traffic, &c.nev, &c.pattern, &c.end ) == 9
-        && c.end >= 0 && c.end <= 3
+    return std::sscanf( s.c_str(), "case proc=%d lat=%d k=%d shift=%d delta=%d traffic=%d nev=%d pattern=%u end=%d uset=%d", &c.proc, &c.lat, &c.k, &c.shift, &c.delta, &c.traffic, &c.nev, &c.pattern, &c.end, &c.uset ) == 10
+        && c.end >= 0 && c.end <= 3 && c.uset >= 0 && c.uset < n_update_sets
         && c.proc >= 0 && c.proc <= 2 && c.traffic >= 0 && c.traffic <= 5 && c.nev >= 0 && c.nev <= 16 && c.k >= 0 && c.k <= 64 && c.shift >= 0 && c.shift <= 200
         && c.lat >= 0 && c.lat <= 7;
 }
@@ -801,9 +816,9 @@ int main( int argc, char** argv )
     };
 
     // one block of the product: all deltas x traffics x patterns behind one prefix
-    auto block = [&]( int proc, int lat, int k, int shift, const std::vector< int >& ds, const std::vector< int >& ts, int n_events, bool all_patterns )
+    auto block = [&]( int proc, int lat, int k, int shift, const std::vector< int >& ds, const std::vector< int >& ts, int n_events, bool all_patterns, int uset = 0 )
     {
-        Case pc{ proc, lat, k, shift, 6, 0, 0, 0 };
+        Case pc{ proc, lat, k, shift, 6, 0, 0, 0, 0, uset };
         Outcome po;
         if ( !prefix( pc, po ) )
         {
@@ -818,7 +833,7 @@ int main( int argc, char** argv )
         for ( int traffic : ts )
         {
             load( s_prefix );
-            Case c{ proc, lat, k, shift, delta, traffic, n_events, 0 };
+            Case c{ proc, lat, k, shift, delta, traffic, n_events, 0, 0, uset };
             Outcome d;
             const bool alive = deliver( c, d );
             ++rep.transitions;
@@ -869,6 +884,14 @@ int main( int argc, char** argv )
     {
         if ( a.expired() ) { cut = true; break; }
         block( proc, 0, 0, shift, { 2, 3, 7 }, { T_LONG3, T_ATT }, 8, th );
+    }
+
+    // connection update towards a larger / smaller interval with the transmitWindowOffset at its limits
+    for ( int uset = 1; uset != n_update_sets && !cut; ++uset )
+    for ( int lat : ( th ? std::vector< int >{ 0, 1, 3 } : std::vector< int >{ 0, 1 } ) )
+    {
+        if ( a.expired() ) { cut = true; break; }
+        block( P_CONN_UPDATE, lat, 0, 0, th ? std::vector< int >{ 2, 3, 6, 7 } : std::vector< int >{ 2, 3, 6 }, { T_NONE, T_PING }, 8, true, uset );
     }
 
     // the connection ends while the procedure is pending; a second connection follows
@@ -922,7 +945,7 @@ int main( int argc, char** argv )
     for ( auto& kv : per_class ) rep.counters[ "cases " + kv.first ] = kv.second;
     rep.states = rep.evaluations;
     if ( cut ) { rep.exhaustive = false; rep.notes[ "cut" ] = "deadline hit, product not completed"; }
-    rep.notes[ "bound" ] = mc::fmt( "procedures 3 x latency %zu x k %zu x delta %zu x traffic %zu x 2^%d received/missed patterns; plus receive ring positions 1..%d x delta {2,3,7} x {3 long PDUs, ATT}; plus connection ended while pending ( 3 ways ) + second connection x 2^7 patterns ( first event received ); peripheral latency configuration %s",
+    rep.notes[ "bound" ] = mc::fmt( "procedures 3 x latency %zu x k %zu x delta %zu x traffic %zu x 2^%d received/missed patterns; plus receive ring positions 1..%d x delta {2,3,7} x {3 long PDUs, ATT}; plus connection update to interval 80 / 8 with winOffset {old+1, new} / {0, new}; plus connection ended while pending ( 3 ways ) + second connection x 2^7 patterns ( first event received ); peripheral latency configuration %s",
         lats.size(), ks.size(), deltas.size(), traffics.size(), nev, max_shift, latcfg_name );
     rep.write( a );
     return 0;
